@@ -171,6 +171,9 @@ pub struct TxSpec {
     pub nonce: NonceSel,
     pub chain: ChainSel,
     pub access_list: Vec<(u8, Vec<u8>)>,
+    /// explicit (non-pool) access-list addresses, e.g. CREATE2 targets
+    #[serde(default)]
+    pub access_extra: Vec<([u8; 20], Vec<u8>)>,
     pub blobs: Vec<u8>,
     /// max_fee_per_blob_gas = blob gas price + delta
     pub blob_fee_delta: i64,
@@ -208,6 +211,9 @@ pub fn build_world(accounts: &[AccountSpec], drop_empty: bool, delegations: bool
 }
 
 impl BlockSpec {
+    pub fn plain() -> BlockSpec {
+        BlockSpec { number: 300, timestamp: 1_700_000_000, gas_limit: 30_000_000, base_fee: U256::from(7), difficulty: U256::from(1), prevrandao: 1, excess_blob_gas: 0, coinbase: IDX_COINBASE }
+    }
     pub fn build(&self) -> Block {
         Block {
             number: self.number,
@@ -229,10 +235,39 @@ fn nonce_of(world: &World, a: &Address) -> u64 {
 }
 
 impl TxSpec {
+    /// A plain valid legacy call (directed cases start from this).
+    pub fn call(caller: u8, to: Option<u8>, gas: u64) -> TxSpec {
+        TxSpec {
+            ty: TxType::Legacy,
+            caller,
+            to,
+            value: U256::zero(),
+            data: DataSpec::Bytes(vec![]),
+            gas: GasSel::Fixed(gas),
+            price: PriceSel::BaseFeePlus(1),
+            priority: None,
+            nonce: NonceSel::Correct,
+            chain: ChainSel::Correct,
+            access_list: vec![],
+            access_extra: vec![],
+            blobs: vec![],
+            blob_fee_delta: 0,
+            auths: vec![],
+            balance: BalanceSel::AsIs,
+        }
+    }
+
     /// Concrete transaction against `world`.  `fork` is used for intrinsic gas / blob price so
     /// that boundary selectors land exactly on the thresholds.
     pub fn build(&self, fork: Fork, block: &Block, world: &World) -> Tx {
         let caller = pool::addr(self.caller);
+        // revm's TxEnv has no type field: shapes that are not recognisable through their fields are
+        // the type revm will see (see `normalise`).
+        let ty = match self.ty {
+            TxType::Eip1559 if fork < Fork::London => TxType::Legacy,
+            TxType::Eip2930 if fork < Fork::Berlin && self.access_list.is_empty() && self.access_extra.is_empty() => TxType::Legacy,
+            t => t,
+        };
         let base = if fork >= Fork::London { block.base_fee } else { U256::zero() };
         let gas_price = match &self.price {
             PriceSel::BaseFeePlus(d) => {
@@ -244,7 +279,7 @@ impl TxSpec {
             }
             PriceSel::Fixed(p) => *p,
         };
-        let is_1559 = matches!(self.ty, TxType::Eip1559 | TxType::Eip4844 | TxType::Eip7702);
+        let is_1559 = matches!(ty, TxType::Eip1559 | TxType::Eip4844 | TxType::Eip7702);
         let sender_nonce = nonce_of(world, &caller);
         let rel = |sel: &NonceSel, cur: u64| -> Option<u64> {
             match sel {
@@ -264,7 +299,7 @@ impl TxSpec {
         };
         let blob_price = refevm::blob_gas_price(fork, block.excess_blob_gas);
         let mut tx = Tx {
-            tx_type: self.ty,
+            tx_type: ty,
             caller,
             to: self.to.map(pool::addr),
             value: self.value,
@@ -274,23 +309,31 @@ impl TxSpec {
             max_priority_fee: if is_1559 { Some(self.priority.unwrap_or(gas_price)) } else { None },
             nonce: rel(&self.nonce, sender_nonce),
             chain_id: chain(&self.chain),
-            access_list: if self.ty == TxType::Legacy { vec![] } else { self.access_list.iter().map(|(a, ks)| (pool::addr(*a), ks.iter().map(|k| pool::key(*k)).collect())).collect() },
-            blob_hashes: if self.ty == TxType::Eip4844 {
+            access_list: if ty == TxType::Legacy {
+                vec![]
+            } else {
+                self.access_list
+                    .iter()
+                    .map(|(a, ks)| (pool::addr(*a), ks.iter().map(|k| pool::key(*k)).collect()))
+                    .chain(self.access_extra.iter().map(|(a, ks)| (*a, ks.iter().map(|k| pool::key(*k)).collect())))
+                    .collect()
+            },
+            blob_hashes: if ty == TxType::Eip4844 {
                 self.blobs.iter().enumerate().map(|(i, v)| { let mut h = pool::h(i as u8 + 1); h[0] = *v; h }).collect()
             } else {
                 vec![]
             },
-            max_fee_per_blob_gas: if self.ty == TxType::Eip4844 {
+            max_fee_per_blob_gas: if ty == TxType::Eip4844 {
                 if self.blob_fee_delta >= 0 { blob_price.saturating_add(U256::from(self.blob_fee_delta as u64)) } else { blob_price.saturating_sub(U256::from(self.blob_fee_delta.unsigned_abs())) }
             } else {
                 U256::zero()
             },
-            authorization_list: if self.ty == TxType::Eip7702 {
+            authorization_list: if ty == TxType::Eip7702 {
                 self.auths
                     .iter()
                     .map(|a| {
                         let authority = a.authority.map(pool::addr);
-                        let cur = authority.map(|x| nonce_of(world, &x) + if x == caller { 1 } else { 0 }).unwrap_or(0);
+                        let cur = authority.map(|x| nonce_of(world, &x).wrapping_add(if x == caller { 1 } else { 0 })).unwrap_or(0);
                         Authorization {
                             chain_id: match a.chain { ChainSel::Correct => U256::from(CHAIN_ID), ChainSel::Wrong => U256::from(CHAIN_ID + 1), ChainSel::Zero | ChainSel::Absent => U256::zero() },
                             address: pool::addr(a.address),
@@ -495,7 +538,7 @@ pub fn tx_spec(cfg: &WorldCfg) -> BoxedStrategy<TxSpec> {
     let gas = dial(
         p,
         prop_oneof![
-            6 => prop::sample::select(vec![100_000u64, 300_000, 1_000_000, 5_000_000]).prop_map(GasSel::Fixed),
+            24 => prop::sample::select(vec![100_000u64, 300_000, 1_000_000, 1_000_000, 5_000_000]).prop_map(GasSel::Fixed),
             2 => (0i16..3000).prop_map(GasSel::Floor),
             1 => Just(GasSel::Floor(0)),
             1 => Just(GasSel::Intrinsic(0)),
@@ -553,6 +596,7 @@ pub fn tx_spec(cfg: &WorldCfg) -> BoxedStrategy<TxSpec> {
             nonce,
             chain,
             access_list,
+            access_extra: vec![],
             blobs,
             blob_fee_delta,
             auths,
